@@ -1,0 +1,25 @@
+//go:build verif
+
+package codescan
+
+// Machine-checked contracts for /verif (comment-only; compiled only with -tags verif).
+
+//@ func swaggerSchemaForType
+//@ props C16
+//@ ensures vs_goJSONType(typeName) != "" ==> result == nil && vs_called("Typed") && vs_callArg[string]("Typed", 1) == vs_goJSONType(typeName) && vs_callArg[string]("Typed", 2) == vs_goJSONFormat(typeName)
+//@ ensures typeName == "complex64" || typeName == "complex128" ==> result != nil && !vs_called("Typed")
+//@ ensures result != nil ==> !vs_called("Typed")
+
+//@ func isFieldStringable
+//@ props C16
+//@ safety
+//@ pure
+//@ requires vs_wfTypeExpr(tpe)
+//@ ensures vs_identName(tpe) != "" ==> result == vs_jsonStringable(vs_identName(tpe))
+
+//@ func tagOptions.Contain
+//@ props C16
+//@ safety
+//@ pure
+//@ ensures result == vs_any(func(i int) bool { return 1 <= i && i < len(t) && t[i] == option })
+//@ loop 1 invariant 1 <= i && vs_all(func(j int) bool { return 1 <= j && j < i && j < len(t) ==> t[j] != option })
